@@ -20,3 +20,9 @@ func New(size uint64, lazyFreeCycle uint64) *Queue {
 
 // CanDrop is pb.Message.CanDrop.
 func CanDrop(m pb.Message) bool { return m.CanDrop() }
+
+// RateLimiter is server.InMemRateLimiter.
+type RateLimiter = server.InMemRateLimiter
+
+// NewRateLimiter is server.NewInMemRateLimiter.
+func NewRateLimiter(maxSize uint64) *RateLimiter { return server.NewInMemRateLimiter(maxSize) }
